@@ -2,7 +2,7 @@ import AtreeProofs.World.DeepNotifyMap
 /-
   DEEP ACCOUNT, part 8: THE TRACKED CALLBACK CHAIN (`notifyDeep`).  A notification from `y` through a
   current handle, in a world whose containers above `y` are those of a world satisfying the
-  invariant and in which every live container is referenced at most once: every heap slab that
+  invariant (if every live container of the final world is referenced at most once): every heap slab that
   deeply embeds (through inlined containers) a container whose entry the chain changed — or `y`
   itself, inlined before or after — was stored by the chain.
 -/
@@ -18,7 +18,7 @@ theorem ndpost_notFound {y : SlabID} {w : World} {cx : Ctx} (h : AList SlabID HI
   ndpost_same (fun _ => rfl) rfl hno
 
 theorem notifyDeep_step {fuel : Nat} (IH : NotifyDeep D rank fuel) : NotifyDeep D rank (fuel + 1) := by
-  intro w0 ctr0 w y cx w' cx' P hsame U hhand h
+  intro w0 ctr0 w y cx w' cx' P hsame hhand h
   rw [notifyParent] at h
   split at h
   · -- no closure
@@ -101,7 +101,7 @@ theorem notifyDeep_step {fuel : Nat} (IH : NotifyDeep D rank fuel) : NotifyDeep 
                 split at h
                 · cases h
                 · cases h
-                  exact deep_arr_core IH P hsame U hh hc hpa hge hel hpar hsr
+                  exact deep_arr_core IH P hsame hh hc hpa hge hel hpar hsr
       · rename_i pm hpm
         split at h
         · cases h
@@ -149,7 +149,7 @@ theorem notifyDeep_step {fuel : Nat} (IH : NotifyDeep D rank fuel) : NotifyDeep 
               split at h
               · cases h
               · rename_i old w4 cx4 hsr
-                have hres := deep_map_core IH P hsame U hh hc hpm hkey hmem hel hpar hsr
+                have hres := deep_map_core IH P hsame hh hc hpm hkey hmem hel hpar hsr
                 split at h
                 · split at h
                   · cases h
@@ -159,7 +159,7 @@ theorem notifyDeep_step {fuel : Nat} (IH : NotifyDeep D rank fuel) : NotifyDeep 
 /-- THE TRACKED CALLBACK CHAIN, for every fuel -/
 theorem notifyDeep (D : SlabID → DigestFn 4) (rank : SlabID → Nat) : ∀ fuel, NotifyDeep D rank fuel
   | 0 => by
-    intro w0 ctr0 w y cx w' cx' _ _ _ _ h
+    intro w0 ctr0 w y cx w' cx' _ _ _ h
     rw [notifyParent] at h
     cases h
   | fuel + 1 => notifyDeep_step (notifyDeep D rank fuel)
